@@ -17,9 +17,15 @@ more (H).  `cycle` is therefore cut into small steps at exactly these reads: bef
 is a *slot* at which an arbitrary list of requests of other threads is applied (`absorb`; the oracle
 `env` numbers the slots consecutively).  A request arriving anywhere between two reads is equivalent to
 one arriving in the slot before the later read, so this covers every interleaving the lock discipline
-allows.  At the level of the mixin a request of another thread is taken as atomic here
-(`startMachine`/`stopMachine` as a whole); the halves `startMachineA/B` exist to exhibit what happens
-when it is not (see `Props/C14.lean`).
+allows.  At the level of the mixin a request of another thread is atomic with respect to the transitions of
+the machine: `start_machine`, `stop_machine`, `final_status` and `StateMachine._new_state` (hook + change of
+state) run under one reentrant lock (the module's `accessLock`, handed to the machine) — hence
+`startMachine`/`stopMachine` as a whole, and `newState` = slot H (before the lock is taken), hook, assignment.
+Between two transitions the cycle thread neither reads nor writes what these requests read or write
+(`statefunc`, `status`, `idle_status`) except in `final_status`, which takes the same lock.  The halves
+`startMachineA/B` exist to exhibit what happened before that lock existed (see `Props/C14.lean`).
+A module-level request is recorded as the client issued it (`reqStart` / `reqStop` … `reqDone`); whether it reaches
+the machine (`post`) is what the code decides (`stop_machine`: only when a state function is active).
 
 Not modelled: `now`/`delta` (time), logging texts, `fast_poll` handling, `_update_attributes` refusing
 keys that are class attributes (assumption: the attributes given to `start` avoid them), a raising
@@ -61,6 +67,8 @@ deriving Repr, Inhabited
 /-- the observable history -/
 inductive Ev where
   | reqStart                                  -- `start_machine` entered (mixin)
+  | reqStop                                   -- `stop_machine` entered (mixin)
+  | reqDone (start : Bool)                    -- `start_machine` (`true`) / `stop_machine` (`false`) returned
   | post (r : Req)                            -- a request replaced `next_task`
   | take                                      -- `cycle` took `next_task` (the swap under the lock)
   | cycleBegin
@@ -139,16 +147,17 @@ def startMachineB (σ : SM) (r : Req) : SM :=
   σ.log (.status σ.status)
 
 def startMachine (cfg : Cfg) (σ : SM) (s : Sid) (cl : Option Cid) (kw : Attrs) (ovr : Option Status) : SM :=
-  startMachineB (startMachineA cfg (σ.log .reqStart) s ovr) (.start s cl kw ovr)
+  (startMachineB (startMachineA cfg (σ.log .reqStart) s ovr) (.start s cl kw ovr)).log (.reqDone true)
 
-/-- `stop_machine(stopped_status)` -/
+/-- `stop_machine(stopped_status)`: `if sm.is_active:` … — nothing happens when no state function is active -/
 def stopMachine (cfg : Cfg) (σ : SM) (stopped : Status) : SM :=
+  let σ := σ.log .reqStop
   match σ.statefunc with
-  | none => σ
+  | none => σ.log (.reqDone false)
   | some cur =>
     let σ := post { σ with idleStatus := stopped } (.stop stopped)
     let st := stopStatus cfg.rules cur σ.status
-    { σ with status := st }.log (.status st)
+    ({ σ with status := st }.log (.status st)).log (.reqDone false)
 
 /-- one request, bare machine or mixin -/
 def request (cfg : Cfg) (σ : SM) (r : Req) : SM :=
